@@ -155,6 +155,11 @@ type FuncCfg struct {
 	// `go f(…)` / `go func() { … }()` statements are left out: the translation is the function's own, sequential
 	// effect; what the started routine does later is not part of it (its decisions can be extracted: kind "closure")
 	IgnoreGo bool `json:"ignore_go"`
+	// the parameter of function type (no results) with this name is a callback that is only *called*, as a statement,
+	// and handed on to calls of the function itself: the translation is generic in a state σ, the callback is
+	// `fn : σ → args… → σ`, the definition takes the state as its last parameter and returns the final state
+	// (`x.Visit(d, fn)` becomes the fold the callback is run through)
+	Callback string `json:"callback"`
 }
 
 // ExtractCfg: the nth condition (source order, from 0) of the given kind — "if" or "for" — among the
@@ -258,6 +263,8 @@ type fn struct {
 	params   []param
 	variadic bool
 	mutated  []int // indices of the pointer parameters (receiver included) whose fields the body assigns
+	cbObj    *ast.Object // the callback parameter ("callback")
+	cbTypes  []string    // Go types of the callback's parameters
 	text     string
 	err      string
 	done     bool
@@ -749,6 +756,7 @@ type ftrans struct {
 	pathVars    map[string]binding // extract: selector paths that are read as variables
 	heapName    string // the heap variable threaded through the function ("" = none)
 	bareReturn  func(e env) node // inside a closure body: what a bare return yields
+	heapType    string // Lean type of the heap variable
 }
 
 var leanKeywords = map[string]bool{"at": true, "from": true, "fun": true, "end": true, "open": true, "in": true, "do": true, "then": true,
@@ -2145,6 +2153,9 @@ func (ft *ftrans) block(stmts []ast.Stmt, e env, k cont) node {
 			if n := ft.updateAssign(nil, token.ASSIGN, ce, e, rest); n != nil {
 				return n
 			}
+			if n := ft.callbackStmt(ce, e, rest); n != nil {
+				return n
+			}
 			if n := ft.heapStmt(ce, e, rest); n != nil {
 				return n
 			}
@@ -2354,6 +2365,9 @@ func (ft *ftrans) ret(s *ast.ReturnStmt, e env) node {
 		}
 		if n == 0 && len(f.mutated) > 0 {
 			return nLeaf{ft.okTerm(tupleOf(ft.mutatedNames()))}
+		}
+		if n == 0 && f.cfg != nil && f.cfg.Callback != "" {
+			return nLeaf{ft.okTerm(ft.heapName)}
 		}
 		failf("bare return is outside the subset")
 	}
@@ -3584,7 +3598,27 @@ func (t *translator) analyse(g *fn) {
 			addParam(f.Names, &ast.ArrayType{Elt: el.Elt})
 			continue
 		}
+		if g.cfg.Callback != "" && len(f.Names) == 1 && f.Names[0].Name == g.cfg.Callback {
+			fty, isFn := f.Type.(*ast.FuncType)
+			if !isFn || (fty.Results != nil && len(fty.Results.List) > 0) {
+				failf("callback %s is not a parameter of a function type without results", g.cfg.Callback)
+			}
+			g.cbObj = f.Names[0].Obj
+			for _, pf := range fty.Params.List {
+				n := len(pf.Names)
+				if n == 0 {
+					n = 1
+				}
+				for j := 0; j < n; j++ {
+					g.cbTypes = append(g.cbTypes, t.typeOf(g.pkg, g.file, pf.Type))
+				}
+			}
+			continue
+		}
 		addParam(f.Names, f.Type)
+	}
+	if g.cfg.Callback != "" && g.cbObj == nil {
+		failf("callback %s is not a parameter of the function", g.cfg.Callback)
 	}
 	// pointer parameters (the receiver first) whose fields the body assigns: their final values are results
 	for i, p := range g.params {
@@ -3616,7 +3650,7 @@ func (t *translator) analyse(g *fn) {
 			g.mutated = append(g.mutated, i)
 		}
 	}
-	if (ft.Results == nil || len(ft.Results.List) == 0) && len(g.mutated) == 0 {
+	if (ft.Results == nil || len(ft.Results.List) == 0) && len(g.mutated) == 0 && g.cfg.Callback == "" {
 		failf("functions without results that update nothing are outside the subset")
 	}
 	if ft.Results == nil {
@@ -3637,7 +3671,7 @@ func (t *translator) analyse(g *fn) {
 			failf("an error result that is not the last result is outside the subset")
 		}
 	}
-	if len(g.results) == 0 && len(g.mutated) == 0 {
+	if len(g.results) == 0 && len(g.mutated) == 0 && g.cfg.Callback == "" {
 		failf("functions that only return an error are outside the subset")
 	}
 }
@@ -3863,7 +3897,21 @@ func (t *translator) translateBody(g *fn) {
 		ps = append(ps, "("+xp[0]+" : "+xp[1]+")")
 		ft.used[xp[0]] = true
 	}
+	if g.cfg.Callback != "" {
+		if g.cfg.Heap {
+			failf("a function with a callback and a heap is outside the subset")
+		}
+		var cts []string
+		for _, ct := range g.cbTypes {
+			cts = append(cts, t.leanType(ct))
+		}
+		ft.heapName, ft.heapType = "st", "σ"
+		ft.used["st"], ft.used["σ"], ft.used[g.cfg.Callback] = true, true, true
+		ps = append([]string{"{σ : Type}"}, ps...)
+		ps = append(ps, "("+g.cfg.Callback+" : σ → "+strings.Join(append(cts, "σ"), " → ")+")", "(st : σ)")
+	}
 	if g.cfg.Heap {
+		ft.heapType = t.mod.HeapCfg.Type
 		if t.mod.HeapCfg == nil || t.mod.HeapCfg.Type == "" {
 			failf("\"heap\": true, but the module has no heap")
 		}
@@ -3888,6 +3936,9 @@ func (t *translator) translateBody(g *fn) {
 	if g.cfg.Heap {
 		rts = append(rts, t.mod.HeapCfg.Type)
 	}
+	if g.cfg.Callback != "" {
+		rts = append(rts, "σ")
+	}
 	rt := strings.Join(rts, " × ")
 	if g.fallible {
 		rt = "Option " + atom(rt)
@@ -3899,6 +3950,9 @@ func (t *translator) translateBody(g *fn) {
 	body := ft.block(g.decl.Body.List, e, func(env) node {
 		if len(g.results) == 0 && !g.fallible && len(g.mutated) > 0 {
 			return nLeaf{ft.okTerm(tupleOf(ft.mutatedNames()))} // end of a function without results
+		}
+		if len(g.results) == 0 && !g.fallible && g.cfg.Callback != "" {
+			return nLeaf{ft.okTerm(ft.heapName)} // the final state
 		}
 		failf("control reaches the end of the function without a return")
 		return nil
